@@ -300,7 +300,7 @@ func nilErrGuards(fn *ssa.Function, c *ssa.Call) []engine.Guard {
 	if len(errs) == 0 {
 		return nil
 	}
-	return guardsWhere(fn, func(cond ssa.Value) (bool, bool, string) {
+	gs := guardsWhere(fn, func(cond ssa.Value) (bool, bool, string) {
 		x, nonNilOnTrue, ok := engine.NilCheck(cond)
 		if !ok {
 			return false, false, ""
@@ -326,6 +326,20 @@ func nilErrGuards(fn *ssa.Function, c *ssa.Call) []engine.Guard {
 		}
 		return false, false, ""
 	})
+	// `return f(x)`: the return hands back the call's own error — success there implies f returned nil
+	for _, ret := range engine.Returns(fn) {
+		if len(ret.Results) == 0 {
+			continue
+		}
+		last := ret.Results[len(ret.Results)-1]
+		if !isErrorType(last.Type()) {
+			continue
+		}
+		if errs[engine.Unwrap(last)] {
+			gs = append(gs, engine.Guard{TailRet: ret, Note: "returns the call's error"})
+		}
+	}
+	return gs
 }
 
 // retErrKind classifies the error result of a return, looking through results spilled to
@@ -366,7 +380,7 @@ func retErrKind(ret *ssa.Return) string {
 			}
 			return false, false, ""
 		})
-		if len(g) > 0 && engine.OnlyThroughPass(fn, ret.Block(), g) {
+		if len(g) > 0 && engine.OnlyThroughPassRet(fn, ret, g) {
 			return "nonnil"
 		}
 	}
@@ -513,7 +527,7 @@ func returnsImply(fn *ssa.Function, want bool, atom atomFn) bool {
 		if len(ret.Results) == 0 {
 			return false
 		}
-		if engine.OnlyThroughPass(fn, ret.Block(), guards) {
+		if engine.OnlyThroughPassRet(fn, ret, guards) {
 			continue
 		}
 		if !truthImplies(fn, ret.Results[0], want, atom, guards, 0) {
@@ -605,4 +619,52 @@ func ssaConstFloat(v ssa.Value) (float64, bool) {
 	}
 	x, _ := constant.Float64Val(f)
 	return x, true
+}
+
+// isLoopIndexPhi: ph is the position variable of a loop — the hidden index of a range loop or a classic
+// induction variable (i := k; …; i++ / i += 1).
+func isLoopIndexPhi(ph *ssa.Phi) bool {
+	if strings.Contains(ph.Comment, "rangeindex") {
+		return true
+	}
+	hasConst, hasStep := false, false
+	for _, e := range ph.Edges {
+		if _, ok := e.(*ssa.Const); ok {
+			hasConst = true
+			continue
+		}
+		if b, ok := e.(*ssa.BinOp); ok && b.Op == token.ADD {
+			if k, isK := engine.ConstInt(b.Y); isK && k == 1 && b.X == ssa.Value(ph) {
+				hasStep = true
+			}
+		}
+	}
+	return hasConst && hasStep
+}
+
+// sliceThroughHelpers is BackSlice that also looks into what small same-package helpers return: for a
+// call of a static callee of pkg in the slice, the slices of the callee's results are added (depth 2).
+func sliceThroughHelpers(v ssa.Value, pkg *ssa.Package, depth int) map[ssa.Value]bool {
+	out := engine.BackSlice(v, engine.DefaultSlice)
+	if depth <= 0 {
+		return out
+	}
+	for x := range out {
+		c, ok := x.(*ssa.Call)
+		if !ok {
+			continue
+		}
+		cal := c.Call.StaticCallee()
+		if cal == nil || cal.Pkg != pkg || cal.Blocks == nil {
+			continue
+		}
+		for _, ret := range engine.Returns(cal) {
+			for _, rv := range ret.Results {
+				for y := range sliceThroughHelpers(rv, pkg, depth-1) {
+					out[y] = true
+				}
+			}
+		}
+	}
+	return out
 }
